@@ -45,12 +45,14 @@ type recGauge struct {
 }
 
 type recRegistry struct {
-	sc      *sched // when set, every AddSample of a listener is a schedule point (a real registry locks, formats and writes there)
-	mu      sync.Mutex
-	Samples []recSample
-	Gauges  []recGauge
-	Kinds   map[string]string // id|tags -> distribution/timing/count
-	seq     int64
+	sleepOnce atomic.Int64 // when non-zero: after sleepSkip further AddSample calls, the next one sleeps that many nanoseconds (once)
+	sleepSkip atomic.Int64
+	sc        *sched // when set, every AddSample of a listener is a schedule point (a real registry locks, formats and writes there)
+	mu        sync.Mutex
+	Samples   []recSample
+	Gauges    []recGauge
+	Kinds     map[string]string // id|tags -> distribution/timing/count
+	seq       int64
 }
 
 type recListener struct {
@@ -60,6 +62,11 @@ type recListener struct {
 }
 
 func (l *recListener) AddSample(v float64, tags ...string) {
+	if l.r.sleepOnce.Load() > 0 && l.r.sleepSkip.Add(-1) < 0 {
+		if d := l.r.sleepOnce.Swap(0); d > 0 {
+			time.Sleep(time.Duration(d))
+		}
+	}
 	if l.r.sc != nil {
 		l.r.sc.Point("metric.addsample")
 	}
